@@ -43,10 +43,14 @@ def run_case(case, res):
     kinds = case["kinds"]
     n = gen.size(f)
     t = TypedTree("t")
+    # kinds are two-character strings built at run time, so that the objects stored in the
+    # tree and the ones used in queries are equal but not identical
+    pre = "k"
+    mk = lambda ch: pre + ch
     if case["lab"] == "uniq":
-        nodes = gen.build(t, f, lambda i: f"n{i}", kind=lambda i: kinds[i])
+        nodes = gen.build(t, f, lambda i: f"n{i}", kind=lambda i: mk(kinds[i]))
     else:
-        nodes = gen.build(t, f, lambda i: "x", kind=lambda i: kinds[i], data_id=lambda i: f"id{i}")
+        nodes = gen.build(t, f, lambda i: "x", kind=lambda i: mk(kinds[i]), data_id=lambda i: f"id{i}")
     holders = [t._root] + nodes
     nontrivial = n >= 3 and any(len(h.children) >= 2 for h in holders)
     res.case(case, nontrivial=nontrivial)
@@ -80,7 +84,8 @@ def run_case(case, res):
                 same = [s for s in sibs if s.kind == x.kind]
                 j = next(k for k, s in enumerate(same) if s is x)
                 K = list(x.children)
-                for kind in KINDS + "q":
+                for kch in KINDS + "q":
+                    kind = "".join(["k", kch])
                     kk = [c for c in K if c.kind == kind]
                     chk(f"get_children({kind})", attempt(lambda: x.get_children(kind)), kk, x)
                     chk(f"first_child({kind})", attempt(lambda: x.first_child(kind)), kk[0] if kk else None, x)
@@ -117,7 +122,8 @@ def run_case(case, res):
                     rec(list(c.children))
 
             rec(top)
-            for kind in KINDS + "q":
+            for kch in KINDS + "q":
+                kind = "".join(["k", kch])
                 kk = [c for c in top if c.kind == kind]
                 chk(f"tree.first_child({kind})", attempt(lambda: t.first_child(kind)), kk[0] if kk else None, None)
                 chk(f"tree.last_child({kind})", attempt(lambda: t.last_child(kind)), kk[-1] if kk else None, None)
